@@ -131,6 +131,10 @@ pub fn check(id: &str, tier: Tier) -> i32 {
   }
   if id == "C03" {
     crate::props_sched::c03_concurrent(&run, thorough);
+    c03_layout_grid(&run, thorough);
+  }
+  if id == "C08" {
+    c08_reopened(&run);
   }
   run.set("passes", json!(passes));
   run.set("bounds", json!({"max_live_handles": MAX_SLOTS, "alphabet": spec.alphabet.iter().map(|o| o.short()).collect::<Vec<_>>(), "starts": all_starts.iter().map(|s| s.name.clone()).collect::<Vec<_>>()}));
@@ -393,4 +397,97 @@ pub fn c13_files_child() -> i32 {
   crate::subject::cleanup_scratch();
   // violations of the in-process oracle are reported by the release pass as well; only a crash matters here
   0
+}
+
+/// C03: every generated layout (align 1..16 x size 0..=64) x {alloc::<T>, alloc_aligned_bytes::<T>(0/1/13)}
+/// from fresh space at every cursor residue mod 16 and from recycled segments, in every cell.
+fn c03_layout_grid(run: &Run, thorough: bool) {
+  use crate::layouts::LAYOUTS;
+  let mut starts: Vec<Start> = vec![Start::fresh()];
+  starts.extend(residue_starts());
+  let frag = fragmented_starts();
+  starts.extend(frag[1..].iter().cloned());
+  // recycled segments whose node sits at different residues: an odd prefix before the blocks
+  for r in [1u32, 4, 9] {
+    let mut s = frag[2].clone();
+    s.name = format!("full-asc+{}", r);
+    s.setup.insert(0, Setup::Do(Op::B(Sz::N(r))));
+    s.setup.insert(1, Setup::Pin(0));
+    starts.push(s);
+  }
+  let mut cfgs = vec![];
+  for fl in [Fl::Optimistic, Fl::Pessimistic] {
+    for (b, u) in [(Backend::Vec, false), (Backend::Vec, true), (Backend::Anon, false), (Backend::File, true)] {
+      for max_align in [8usize, 16] {
+        if max_align == 8 && !thorough && b != Backend::Vec {
+          continue;
+        }
+        let mut c = Cfg::new(fl, b, u, if u || b == Backend::File { 320 } else { 289 });
+        c.max_align = max_align;
+        cfgs.push(c);
+      }
+    }
+  }
+  let mut ops = vec![];
+  for (a, s) in LAYOUTS {
+    ops.push(Op::T(Ty::L(a, s)));
+    for n in [0u32, 1, 13] {
+      ops.push(Op::AB(Ty::L(a, s), Sz::N(n)));
+    }
+    if thorough {
+      ops.push(Op::TO(Ty::L(a, s)));
+      ops.push(Op::ABO(Ty::L(a, s), Sz::N(5)));
+    }
+  }
+  let spec = Spec { alphabet: ops.clone(), depth: 1, oracles: O_CAPALIGN | O_SHADOW, sync: true, unsync: true, diff: false, diff_prop: "C03" };
+  explore(run, &spec, &cfgs, &starts, "C03");
+  run.set("layout_grid", json!({"layouts": LAYOUTS.len(), "calls_per_layout": ops.len() / LAYOUTS.len(), "start_states": starts.len(), "cells": cfgs.len()}));
+}
+
+/// C08: byte allocations on a reopened file are zero-filled too (fresh space above the stored
+/// cursor holds stale bytes in the file; recycled segments hold the previous owner's bytes).
+fn c08_reopened(run: &Run) {
+  use rarena_allocator::{Allocator, ArenaPosition, Buffer};
+  fn one<A: Subject>(run: &Run, fl: Fl, copy: bool) {
+    let cfg = Cfg::new(fl, Backend::File, true, 256);
+    let p = fresh_path("c08re");
+    {
+      let a: A = build(&cfg, Some(&p)).unwrap();
+      let fill = |n: u32, pat: u8| {
+        let mut b = a.alloc_bytes(n).unwrap();
+        unsafe { b.detach() };
+        let m = meta_of(&b);
+        unsafe { std::ptr::write_bytes(a.raw_mut_ptr().add(m.0), pat, m.1) };
+        m
+      };
+      let x = fill(40, 0xA1);
+      let _y = fill(24, 0xA2);
+      let z = fill(a.remaining() as u32, 0xA3);
+      unsafe { a.dealloc(x.2 as u32, x.3 as u32) };
+      // stale non-zero bytes above the cursor
+      unsafe { a.rewind(ArenaPosition::Start(z.0 as u32 + 16)) };
+    }
+    let o = cfg.options().with_read(true).with_write(true);
+    let a: A = unsafe { if copy { o.map_copy(&p) } else { o.map_mut(&p) } }.unwrap();
+    for n in [7u32, 16, 32, 5, 64, 1] {
+      if let Ok(mut b) = a.alloc_bytes(n) {
+        unsafe { b.detach() };
+        let m = meta_of(&b);
+        run.eval(1);
+        let bytes = unsafe { std::slice::from_raw_parts(a.raw_ptr().add(m.0), m.1) };
+        if bytes.iter().any(|x| *x != 0) {
+          run.violation(crate::report::Violation { property: "C08".into(), signature: format!("C08:not-zeroed-after-reopen:{}", if copy { "map_copy" } else { "map_mut" }), message: format!("[{} {:?} reopened with {}] alloc_bytes({}) -> [{},{}) = {:x?}", A::FLAVOUR, fl, if copy { "map_copy" } else { "map_mut" }, n, m.0, m.0 + m.1, bytes), replay: json!({"engine": "c08-reopen", "flavour": A::FLAVOUR, "fl": fl, "copy": copy}) });
+        }
+        unsafe { std::ptr::write_bytes(a.raw_mut_ptr().add(m.0), 0xB7, m.1) };
+      }
+    }
+    drop(a);
+    let _ = std::fs::remove_file(&p);
+  }
+  for fl in Fl::ALL {
+    for copy in [false, true] {
+      one::<rarena_allocator::sync::Arena>(run, fl, copy);
+      one::<rarena_allocator::unsync::Arena>(run, fl, copy);
+    }
+  }
 }
